@@ -24,6 +24,12 @@ while it is parked every other push (`put`, must be fault=none gate=0) is answer
 `n/a` once a HAProxy admin call was made to fail in the case (which calls got through then depends on Go's
 map order). After a `tick` it must be exactly the endpoints of the serving configuration.
 
+Policies mode (a case that starts with `pinit`; run by a second engine process with LUNAR_STREAMS_ENABLED unset):
+  pinit k=<0-9>                                 → ok
+  pstate                                        → disk=<label> run=s40<label>
+  ppush k=<0-9>|invalid|badyaml fault=none|ha   → status=200|422    (ha: the proxy refuses every admin call)
+  prevert to=last|diag fault=none|ha            → status=200|422
+
 `rpos` (default first) says where Go's map iteration puts the path of an `rstore:` fault among the
 files `Restore()` writes back: first (nothing else restored) or last (everything else restored).
 The judge evaluates the Spec only for fault plans without a fault inside the restore
@@ -305,6 +311,7 @@ def fmtEndpoints (eps : List Path) : String :=
   if ws.isEmpty then "%e" else ",".intercalate ws.toList
 
 structure RunSt where
+  pst : Option PState := none   -- policies mode
   reg : Registry := Registry.empty
   regNA : Bool := false     -- the roll-back's HAProxy update was made to fail: the managed set is not predicted
   regFuzzy : Bool := false  -- a HAProxy update failed half-way: not predicted until the next `tick`
@@ -368,6 +375,42 @@ def runStep (s : RunSt) (line : String) : RunSt × String :=
       let s := if s.held.isSome then s else advanceReg s p
       ({ s with st := r.state },
        s!"status={r.status} phase={fmtPhase r.phase} mid={fmtMid p.probes r.mid}")
+  | ["pinit", w] =>
+    match kvNat [w] "k" with
+    | some k => if k ≤ 9 then ({ s with pst := some ⟨k, k⟩ }, "ok") else ({ s with pst := none }, "bad-op")
+    | none => ({ s with pst := none }, "bad-op")
+  | ["pstate"] =>
+    match s.pst with
+    | some st => (s, s!"disk={st.disk} run=s{400 + st.run}")
+    | none => (s, "skip")
+  | ["ppush", a, b] =>
+    let ws := [a, b]
+    let payload : Option PPayload := match kv ws "k" with
+      | some "invalid" => some .invalid
+      | some "badyaml" => some .invalid
+      | some l => match l.toNat? with
+        | some k => if l.length == 1 then some (.label k) else none
+        | none => none
+      | none => none
+    let refuses : Option Bool := match kv ws "fault" with
+      | some "none" => some false | some "ha" => some true | _ => none
+    match payload, refuses with
+    | some pl, some rf =>
+      match s.pst with
+      | some st => let r := applyPolicies rf st pl; ({ s with pst := some r.2 }, s!"status={r.1}")
+      | none => (s, "skip")
+    | _, _ => (s, "bad-op")
+  | ["prevert", a, b] =>
+    let ws := [a, b]
+    let okTo := match kv ws "to" with | some "last" => true | some "diag" => true | _ => false
+    let refuses : Option Bool := match kv ws "fault" with
+      | some "none" => some false | some "ha" => some true | _ => none
+    match okTo, refuses with
+    | true, some rf =>
+      match s.pst with
+      | some st => let r := revertPolicies rf st; ({ s with pst := some r.2 }, s!"status={r.1}")
+      | none => (s, "skip")
+    | _, _ => (s, "bad-op")
   | ["tick"] => if s.live then ({ s with reg := s.reg.tick, regFuzzy := false }, "ok") else (s, "skip")
   | ["managed"] =>
     if !s.live then (s, "skip") else
@@ -414,6 +457,8 @@ structure JudgeSt where
   dead : Bool := false
   held : Option Put := none
   ticked : Bool := false
+  lastP : Option String := none           -- policies mode: last `pstate`
+  pendingP : Option (String × String × String) := none  -- op, status, pstate before
 
 def parseListing (out : String) : Option Disk :=
   if out == "%e" then some [] else parseEntries (words out)
@@ -482,6 +527,32 @@ def judgeStep (s : JudgeSt) (op out : String) : JudgeSt :=
     match parsePut ws with
     | none => { s with bad := some "unparsable-put" }
     | some p => judgePut s p out
+  | ["pstate"] =>
+    let s' := { s with lastP := some out, pendingP := none }
+    match s.pendingP with
+    | none => s'
+    | some (pop, status, before) =>
+      if s.fail.isSome then s' else
+      if status != "status=200" then
+        -- refused / failed: policies.yaml and the policies serving new transactions as before
+        if out == before then s'
+        else { s' with fail := some s!"- policies-push-refused-but-state-changed {pctEnc pop} {status} before={pctEnc before} after={pctEnc out}" }
+      else
+        match (words pop), kv (words pop) "k" with
+        | "ppush" :: _, some l =>
+          let expected := s!"disk={l} run=s{400 + l.toNat?.getD 0}"
+          if out == expected then s'
+          else { s' with fail := some s!"- accepted-policies-push-not-in-force expected={pctEnc expected} after={pctEnc out}" }
+        | _, _ => if out == before then s' else
+          { s' with fail := some s!"- revert-changed-state before={pctEnc before} after={pctEnc out}" }
+  | "ppush" :: _ =>
+    match s.lastP with
+    | some b => { s with pendingP := some (op, out, b) }
+    | none => s
+  | "prevert" :: _ =>
+    match s.lastP with
+    | some b => { s with pendingP := some (op, out, b) }
+    | none => s
   | ["tick"] => { s with ticked := true }
   | ["managed"] =>
     -- once the un-manage delay has elapsed HAProxy must hand the engine exactly the endpoints of the
